@@ -230,7 +230,7 @@ def _main(check):
     K = getattr(check, "VALIDATE_K", {"quick": 40, "thorough": 200})[tier]
     rnd = random.Random(seed); validate.sort(key=lambda c: json.dumps(c, sort_keys=True, default=str))
     vsel = validate if len(validate) <= K else rnd.sample(validate, K)
-    nvalid = 0
+    nvalid = 0; valfail = None
     try:
         real = run_replay(vsel)
     except mirdump.DumpError as e:
@@ -239,7 +239,8 @@ def _main(check):
         exp = c["expect"]
         got = {k: r.get(k) for k in exp}
         if got != exp:
-            print("INCONCLUSIVE property=%s: the MIR interpreter and the real build disagree on a sampled instance of family %s:\n  case=%s\n  engine=%s\n  real=%s" % (pid, c["family"], {k: v for k, v in c.items() if k != "expect"}, exp, got)); sys.exit(2)
+            if valfail is None: valfail = "the MIR interpreter and the real build disagree on a sampled instance of family %s:\n  case=%s\n  engine=%s\n  real=%s" % (c["family"], str({k: v for k, v in c.items() if k != "expect"})[:1500], str(exp)[:1500], str(got)[:1500])
+            continue
         nvalid += 1
     log("differential validation: %d sampled instances agree with the real build" % nvalid)
     # confirm candidate violations on the real build, classify against known findings
@@ -273,6 +274,8 @@ def _main(check):
     for f in known:
         if f["key"] in known_hits:
             print("KNOWN-FINDING: property=%s %s (%d confirmed instances this run; e.g. %s)" % (pid, f["what"], len(known_hits[f["key"]]), known_hits[f["key"]][0]["what"][:200]))
+    if valfail and not new:
+        print("INCONCLUSIVE property=%s: %s" % (pid, valfail)); sys.exit(2)
     wall = time.time() - t0
     cov = {
         "states": paths, "transitions": sum(s["decisions"] for s in summ) + paths,
